@@ -1,6 +1,6 @@
 """Data for MANIFEST.json (edit here, then run tools_manifest.py)."""
 
-PYVC_PROPS = ["C04", "C06", "C08", "C09", "C10", "C11", "C12", "C14", "C16"]
+PYVC_PROPS = ["C04", "C06", "C08", "C09", "C10", "C11", "C12", "C14", "C15", "C16"]
 BOUNDED_PROPS: list[str] = ["C04", "C06", "C09", "C14", "C10", "C11", "C12", "C15"]
 
 
@@ -140,7 +140,11 @@ CHECKS += [
     bchk("C15", "BOUNDED (never counted as proved). Every history of <= 3 runs (ingest / no ingest x unique graphs on / off) of the real entry point "
          "otel_to_pv over a file-backed store, with time_buffer 0 and 1: each run terminates, keeps the store well-formed (association rows match stored "
          "spans) and reproduces the PV sequences and selected shapes of the first run with the same flags.",
-         "Bounded exploration; separate runs are emulated in one process with a fresh SQLDataHolder and engine per run on the same database file.",
+         "Bounded exploration; separate runs are emulated in one process with a fresh SQLDataHolder and engine per run on the same database file. "
+         "Additionally PROVED (the sidecars of C09 and C11 discharged again under this property): the two pieces of state a run can inherit - "
+         "find_unique_graphs empties job_hashes before hashing, its postcondition (one row per root of the window; ValueError only for an empty window, "
+         "never IntegrityError) does not depend on the rows found at entry; a fresh DataHolder has the default time range and its window is then the "
+         "whole time axis (lemma no_ingestion_means_everything).",
          "DESIGN.md 4/C15"),
 ]
 
